@@ -9,6 +9,20 @@ design_ref  DESIGN.md section
 """
 
 PROPS = {
+    "C11": {
+        "groups": ["tsig"],
+        "strict_err": True,
+        "design_ref": "§6 C11",
+        "technique": "Lean 4 proof for an arbitrary MAC function: digest input of the three signing/verification modes = RFC 8945 §4.3 construction; verify = ok ↔ allowed MAC size ∧ MAC = truncated tag ∧ |now − signed| ≤ fudge, with FormErr > BadSig > BadTime; verify∘sign = ok inside the window; injectivity of the digest input in every covered field (tampering ⇒ explicit truncated-MAC collision); Lean SHA-1/SHA-256/HMAC and the TSIG model tied to src/message/tsig.rs, src/rr/rdata/tsig.rs, Writer::finish_with_mac and the hmac/sha1/sha2 crates by differential correspondence (published vectors in corpus/C11)",
+        "assumptions": [
+            "HMAC-SHA1 / HMAC-SHA256 are collision- and forgery-resistant (not proved; the tamper theorem reduces acceptance of an altered message to an explicit truncated-tag collision)",
+            "callers uphold the documented preconditions of sign_*/verify_* (message of at least 12 octets whose ARCOUNT counts the TSIG RR, prior MAC ≤ 65535 octets, algorithm argument = algorithm named in the RR); outside them the code panics, which the model reproduces",
+        ],
+        "evidence_notes": [
+            "interpretation: RFC 8945 §5.3.1 'Prior MAC (running)' is framed with its two-octet size like the request MAC of §4.3.1 (BIND-generated vectors of the repository verify only that way)",
+            "the digest input is not injective in (message, key name) for arbitrary octet strings (no delimiter between message and key name): C11_request_digest_ambiguous gives the witness; it is injective for equal-length messages and, more generally, when neither message body is a proper prefix of the other (true of well-framed DNS messages with equal counts)",
+        ],
+    },
     "C14": {
         "groups": ["wire"],
         "design_ref": "§6 C14",
